@@ -128,6 +128,12 @@ var pillars = ev.Register(&ev.P[momentCase]{
 		if e := cmpPillar("hour", tp, l.GetTimeInGanZhi(), l.GetTimeGanIndex(), l.GetTimeZhiIndex(), l.GetTimeGan(), l.GetTimeZhi()); e != nil {
 			return fmt.Errorf("%v: %v", t, e)
 		}
+		// the exported hour-branch helper takes the time of day as text, with or without seconds
+		for _, txt := range []string{fmt.Sprintf("%02d:%02d", t.H, t.Mi), fmt.Sprintf("%02d:%02d:%02d", t.H, t.Mi, t.S), gen.Solar(t).ToYmdHms()[11:]} {
+			if g := LunarUtil.GetTimeZhiIndex(txt); g != m.timeZhi || LunarUtil.ConvertTime(txt) != ref.Zhi[m.timeZhi] {
+				return fmt.Errorf("%v: LunarUtil.GetTimeZhiIndex(%q) = %d / ConvertTime = %s, the two-hour slot is %s (%d)", t, txt, g, LunarUtil.ConvertTime(txt), ref.Zhi[m.timeZhi], m.timeZhi)
+			}
+		}
 		// eight characters under both sects
 		ec := l.GetEightChar()
 		for _, sect := range []int{1, 2} {
